@@ -208,6 +208,13 @@ Proof.
   unfold onat_eqb, option_eqb in E. destruct (ngraph (hng h) n); [|discriminate]. apply Nat.eqb_eq in E. congruence.
 Qed.
 
+Lemma I3_g_sort h out : I3 (hng h) -> I3 (hng (fst (g_sort all_fixed h out))).
+Proof.
+  intros HI. unfold g_sort. destruct out as [orders|]; [|assumption]. destruct (sort_valid h orders); [|assumption].
+  cbn [fst K]. revert h HI. induction orders as [|go t IH]; intros h HI; simpl; [assumption|].
+  apply IH. apply I3_g_extend. assumption.
+Qed.
+
 Lemma hng_graph_build_I3 h g gi go d ns : I3 (hng h) -> I3 (hng (fst (graph_build all_fixed h g gi go d ns))).
 Proof.
   intros HI. unfold graph_build.
@@ -220,11 +227,9 @@ Qed.
 
 Lemma I3_graph_new h g gi go ginit ns : I3 (hng h) -> I3 (hng (fst (graph_new all_fixed h g gi go ginit ns))).
 Proof.
-  intros HI. unfold graph_new. destruct (negb (blank_graph h g)); [assumption|].
-  destruct (_ && all_fixed SGraphNew); [assumption|].
-  pose proof (hng_graph_build_I3 h g gi go (dict_of (how h) ginit []) ns HI) as Hb.
-  destruct (graph_build _ _ _ _ _ _ _) as [h' r]. cbn [fst] in Hb.
-  destruct r; cbn [fst K R hng with_nm]; [assumption|]. destruct (_ || _); cbn [fst R hng with_nm]; assumption.
+  intros HI. unfold graph_new. destruct (negb (blank_graph h g)); [assumption|]. cbn [all_fixed].
+  destruct (graph_new_reject _ _ _ _ _); [assumption|]. cbn [fst K]. unfold graph_init. cbn [hng with_nm].
+  apply I3_g_extend. rewrite !hng_reg_values. assumption.
 Qed.
 
 Ltac chainR := repeat match goal with
@@ -247,6 +252,7 @@ Proof.
   - destruct (ngraph (hng h) n); [apply I3_g_insert|]; assumption.
   - destruct (ngraph (hng h) n); [apply I3_g_insert|]; assumption.
   - apply I3_g_remove. assumption.
+  - apply I3_g_sort. assumption.
   - unfold n_replace_input. destruct (_ || _)%bool; assumption.
   - unfold n_resize_inputs. destruct (_ =? _)%Z; [assumption|]. destruct (_ <? _)%Z; [assumption|].
     destruct (_ <? _); assumption.
